@@ -63,6 +63,16 @@ pub fn compare_walk_with(
     let fail = |sig: &str, msg: String| {
         Err(Bad::new(msg).sig(format!("C13:{sig}")).rendered(format!("{}\n--- CFG ---\n{}", c.r.src, dump_cfg(cfg))))
     };
+    // the counter of a `for`: its condition and its step name one variable, whatever the body declares
+    // (the step is not part of the body's block)
+    let mut step_of: std::collections::HashMap<crate::gen::ast::Id, crate::gen::ast::Id> = std::collections::HashMap::new();
+    c.def.body.walk(&mut |s| {
+        if let crate::gen::ast::Stmt::For { id, step, .. } = s {
+            step_of.insert(step.id(), *id);
+        }
+    });
+    let mut counter_seen: std::collections::HashMap<crate::gen::ast::Id, String> = std::collections::HashMap::new();
+    let full = |v: &ir::VariableName| format!("{}{}", v.name(), v.suffix().as_ref().map(|s| format!("_{s}")).unwrap_or_default());
     let mut block = 0usize;
     let mut pred: Option<usize> = None;
     let mut k = 0usize; // next AST event
@@ -101,6 +111,34 @@ pub fn compare_walk_with(
                         m.end()
                     ),
                 );
+            }
+            match &ev.node {
+                EvNode::Cond(crate::gen::ast::Stmt::For { id, cond: crate::gen::ast::Expr::Infix { l, .. }, .. }, _) => {
+                    if let (crate::gen::ast::Expr::Var { name, .. }, ir::Statement::IfThenElse { cond: ir::Expression::InfixOp { lhe, .. }, .. }) = (&**l, st) {
+                        if let ir::Expression::Variable { name: v, .. } = &**lhe {
+                            if v.name() == name {
+                                counter_seen.insert(*id, full(v));
+                            }
+                        }
+                    }
+                }
+                EvNode::Assign(s) => {
+                    if let (Some(for_id), ir::Statement::Substitution { var, .. }) = (step_of.get(&s.id()), st) {
+                        if let Some(seen) = counter_seen.get(for_id) {
+                            if *seen != full(var) {
+                                return fail(
+                                    "for-step-binds-another-variable",
+                                    format!(
+                                        "step {k}: the step `{}` of a `for` assigns `{}`, the loop's condition reads `{seen}`: the step is not inside the scope of the loop body",
+                                        c.r.src.get(ev.span.0..ev.span.1).unwrap_or("?"),
+                                        full(var)
+                                    ),
+                                );
+                            }
+                        }
+                    }
+                }
+                _ => {}
             }
             k += 1;
             if let ir::Statement::IfThenElse { true_index, false_index, .. } = st {
